@@ -673,6 +673,13 @@ func Dests(rich bool) []dstMaker {
 			func(g *varGen) (*Dest, map[string][2]int64) {
 				return &Dest{Kind: "allot", Portions: []Portion{P(1, 2), P(1, 2), PR()}, Subs: []*Dest{acc("x"), acc("y"), kept()}}, none
 			},
+			// fractions written with leading zeros are decimal like every number of the language
+			func(g *varGen) (*Dest, map[string][2]int64) {
+				return &Dest{Kind: "allot", Portions: []Portion{PT("1/010", 1, 10), PR()}, Subs: []*Dest{acc("x"), acc("y")}}, none
+			},
+			func(g *varGen) (*Dest, map[string][2]int64) {
+				return &Dest{Kind: "allot", Portions: []Portion{PT("010/0100", 10, 100), PT("09.50%", 95, 1000), PR()}, Subs: []*Dest{acc("x"), acc("y"), acc("a")}}, none
+			},
 		)
 	}
 	return ds
